@@ -115,13 +115,17 @@ func (r *Runner) fillExpandConfig(ctx context.Context) {
 			}
 			r.bgProcs = append(r.bgProcs, bg)
 			go func() {
+				verifYield("procsubst.start", r2)
 				defer func() {
 					*bg.exit = r2.exit
+					verifYield("procsubst.end", r2)
 					close(bg.done)
 				}()
 				switch ps.Op {
 				case syntax.CmdIn:
+					verifYield("fifo.open", r2)
 					f, err := os.OpenFile(path, os.O_WRONLY, 0)
+					verifYield("fifo.opened", r2)
 					if err != nil {
 						r.errf("cannot open fifo for stdout: %v\n", err)
 						return
@@ -134,7 +138,9 @@ func (r *Runner) fillExpandConfig(ctx context.Context) {
 						os.Remove(path)
 					}()
 				case syntax.CmdOut:
+					verifYield("fifo.open", r2)
 					f, err := os.OpenFile(path, os.O_RDONLY, 0)
+					verifYield("fifo.opened", r2)
 					if err != nil {
 						r.errf("cannot open fifo for stdin: %v\n", err)
 						return
@@ -307,6 +313,7 @@ func (r *Runner) stop(ctx context.Context) bool {
 }
 
 func (r *Runner) stmt(ctx context.Context, st *syntax.Stmt) {
+	verifYield("stmt", r)
 	if r.stop(ctx) {
 		return
 	}
@@ -322,9 +329,11 @@ func (r *Runner) stmt(ctx context.Context, st *syntax.Stmt) {
 		}
 		r.bgProcs = append(r.bgProcs, bg)
 		go func() {
+			verifYield("bg.start", r2)
 			r2.Run(ctx, &st2)
 			r2.exit.exiting = false // subshells don't exit the parent shell
 			*bg.exit = r2.exit
+			verifYield("bg.end", r2)
 			close(bg.done)
 		}()
 	} else {
@@ -517,12 +526,15 @@ func (r *Runner) cmd(ctx context.Context, cm syntax.Command) {
 			r.stdin = pr
 			var wg sync.WaitGroup
 			wg.Go(func() {
+				verifYield("pipe.start", r2)
 				r2.stmt(ctx, cm.X)
 				r2.exit.exiting = false // subshells don't exit the parent shell
 				pw.Close()
+				verifYield("pipe.end", r2)
 			})
 			r.stmt(ctx, cm.Y)
 			pr.Close()
+			verifYield("pipe.wait", r)
 			wg.Wait()
 			r.stdin = oldIn
 			if r.opts[optPipeFail] && !r2.exit.ok() && r.exit.ok() {
@@ -943,8 +955,10 @@ func (r *Runner) hdocReader(rd *syntax.Redirect) (stdinFile, error) {
 	// We still construct and buffer the entire heredoc first,
 	// as doing it concurrently would lead to different semantics and be racy.
 	go func() {
+		verifYield("hdoc.start", r)
 		io.WriteString(pw, hdoc)
 		pw.Close()
+		verifYield("hdoc.end", r)
 	}()
 	return pr, nil
 }
@@ -1054,9 +1068,11 @@ func (r *Runner) redir(ctx context.Context, rd *syntax.Redirect) (io.Closer, err
 		// We write to the pipe in a new goroutine,
 		// as pipe writes may block once the buffer gets full.
 		go func() {
+			verifYield("hdoc.start", r)
 			io.WriteString(pw, arg)
 			io.WriteString(pw, "\n")
 			pw.Close()
+			verifYield("hdoc.end", r)
 		}()
 		return pr, nil
 	case syntax.DplOut:
@@ -1175,7 +1191,9 @@ func (r *Runner) call(ctx context.Context, pos syntax.Pos, args []string) {
 }
 
 func (r *Runner) exec(ctx context.Context, pos syntax.Pos, args []string) {
+	verifYield("exec.before", r)
 	r.exit.fromHandlerError(r.execHandler(r.handlerCtx(ctx, handlerKindExec, pos), args))
+	verifYield("exec.after", r)
 }
 
 func (r *Runner) open(ctx context.Context, path string, flags int, mode os.FileMode, print bool) (io.ReadWriteCloser, error) {
@@ -1189,6 +1207,7 @@ func (r *Runner) open(ctx context.Context, path string, flags int, mode os.FileM
 	dir, name := filepath.Split(path)
 	dir = strings.TrimSuffix(dir, "/")
 	if dir == r.tempDir && strings.HasPrefix(name, fifoNamePrefix) {
+		verifYield("fifo.open", r)
 		return os.OpenFile(path, flags, mode)
 	}
 
